@@ -10,11 +10,14 @@
         -> "<status> <index>"    status = ok | err:<kind> | panic | fuel | nocoin | unmodelled
    obs     <sid> <maxheight> <hashes,...> <roots,...> <txs,...>
    log     <sid>                  -> the writes issued since the previous "log", in program order
+   nlog    <sid>                  -> number of writes logged so far
+   crash   <sid> <k>              -> open_db on the disk left by a crash after the first k writes
    coins = string of 0/1 ("-" = none), 1 meaning mrand.Float64() < 0.5 *)
 open Model
 open Vh
 
 let sessions : (string, st ref) Hashtbl.t = Hashtbl.create 7
+let geneses : (string, header) Hashtbl.t = Hashtbl.create 7
 let reported : (string, int) Hashtbl.t = Hashtbl.create 7
 
 let num s = n_of_string s
@@ -98,6 +101,7 @@ let handle (toks : string list) : string =
     let g = { h_hash = num gh; h_parent = N0; h_number = N0; h_diff = num gd; h_root = num gr } in
     let s = init_state g in
     Hashtbl.replace sessions sid (ref s);
+    Hashtbl.replace geneses sid g;
     Hashtbl.replace reported sid 0;
     "ok"
   | ["insert"; sid; cs; blks] ->
@@ -118,6 +122,14 @@ let handle (toks : string list) : string =
     let fresh = drop seen all in
     Hashtbl.replace reported sid (List.length all);
     if fresh = [] then "-" else String.concat " " (List.map wop_str fresh)
+  | ["nlog"; sid] -> string_of_int (List.length (log_of !(sess sid)))
+  | ["crash"; sid; k] ->
+    (* C04: NewBlockChain on the disk a crash after the first k writes of this session leaves *)
+    let g = Hashtbl.find geneses sid in
+    let d = crash_disk (genesis_disk g) (log_of !(sess sid)) (nat_of_int (int_of_string k)) in
+    let (stt, s') = open_db d in
+    status_name stt ^ " head=" ^ dec (s_hash s'.cur_block) ^ " hdr=" ^ dec s'.cur_header.h_hash
+    ^ " canon_at_head=" ^ dec (canon s'.dsk (s_num s'.cur_block))
   | _ -> "driver-error unknown-command"
 
 let () = self_test b2n; serve handle
